@@ -17,6 +17,8 @@ run Codec.v 's/| Ok (v, r) => if blen r =? blen bs then Ok (VList (rev acc), bs)
 run Client.v 's/Definition THROTTLE : N := 2000./Definition THROTTLE : N := 2001./' C10
 run Sequence.v 's/let here := evs ++ \[EvW ACK; EvY i v\] in/let here := evs ++ [EvY i v; EvW ACK] in/' C05
 run Transport.v 's/if b2 =? 255 then/if b2 =? 254 then/' C04
+run Client.v 's/if cs_silent s then CErr 3 (at_time (logw w (ERefused (w_now w))) deadline) else/if cs_silent s then CErr 3 (logw w (ERefused (w_now w))) else/' C10
+run Client.v 's/| RErr EUnexpectedPacket => (r, drop_cur w.)/| RErr EUnexpectedPacket => (r, w\x27)/' C09
 rm -rf evidence; mv .cache/evidence.bak evidence
 (cd coq && make >/dev/null 2>&1)
 git status --short | head
